@@ -5,10 +5,11 @@ CLAIM = ('Real Grid/GridN/GridB code (with the real BinaryHeap and real Eigen::V
          '"visit the cells of a fixed universe in order and skip / create+add / create+abandon each, then remove a subset again" with '
          'symbolic choices and symbolic cell data: lookups find exactly the present cells, neighbour lists are exactly the present cells '
          'differing by one in a single dimension (no duplicates), size agrees; GridN/GridB neighbour counts and interior/border flags '
-         'equal recomputation incl. bounds and a custom interior limit; in GridB every cell sits in exactly the queue of its class, queue '
-         'sizes add up, tops are the best border / interior cell under two DIFFERENT order functors; components() is exactly the partition '
-         'induced by the neighbour relation for every subset of the universe.')
-OUT = ('universes other than the listed shapes (lines of 4-5, 2x2, 2x3, plus+detached, 2x2x2), re-adding a removed coordinate, update()/updateAll() '
+         'equal recomputation incl. symbolic bounds and a symbolic interior limit; in GridB every cell sits in exactly the queue of its class, queue '
+         'sizes add up, tops are the best border / interior cell under two DIFFERENT order functors. Grid: every removed subset is symbolic; '
+         'GridN/GridB: add/abandon/remove sequences and GridB key order types are case-split (CBMC then executes the real code bit-precisely; '
+         'only limit/bounds/one key stay symbolic).')
+OUT = ('components() (undecided even on concrete subsets - not claimed), universes other than the listed shapes (lines of 4-5, 2x2, 2x3, plus+detached, 2x2x2), re-adding a removed coordinate, update()/updateAll() '
        'after data changes (thorough only), hash-function quality, status() printing, topInternal()/topExternal() on two empty queues')
 ASSUMPTIONS = ['std::unordered_map is a bounded association-list model using the real KeyEqual functor (vt/stdmodel/unordered_map)']
 
@@ -18,26 +19,75 @@ USIZE = {0: 4, 1: 4, 2: 6, 3: 6, 4: 5, 5: 8}
 
 def queries(tier):
     qs = []
-    to = 600 if tier == 'quick' else 1800
-    def grid(kind, shape, limit=0, bounds=0, add=None, ab=0, probe=None):
+    to = 300 if tier == 'quick' else 900
+    def grid(kind, shape, limit=0, bounds=0, add=None, ab=0, probe=None, rm=None, sym=None, perm=None):
         full = (1 << USIZE[shape]) - 1
         add = full & ~ab if add is None else add
-        nm = '%s[%s%s%s,add=%x,abandon=%x%s]' % (('grid', 'gridn', 'gridb')[kind], SHAPES[shape], ',limit=%d' % limit if limit else '', ',bounds' if bounds else '', add, ab, '' if probe is None else ',probe=%d' % probe)
-        qs.append(Query(nm, 'C13_grid.cpp', 'harness_grid', defines={'KIND': kind, 'SHAPE': shape, 'LIMIT': limit, 'BOUNDS': bounds, 'ADDMASK': add, 'ABMASK': ab, **({} if probe is None else {'PROBE': probe}),
+        nm = '%s[%s%s%s,add=%x,abandon=%x%s]' % (('grid', 'gridn', 'gridb')[kind], SHAPES[shape], ',limit=%d' % limit if limit else '', ',bounds' if bounds else '', add, ab, ('' if probe is None else ',probe=%d' % probe) + ('' if rm is None else ',remove=' + '.'.join(map(str, rm))) + ('' if perm is None else ',keys=%x,symkey=%s' % (perm, sym)))
+        qs.append(Query(nm, 'C13_grid.cpp', 'harness_grid', defines={'KIND': kind, 'SHAPE': shape, 'LIMIT': limit, 'BOUNDS': bounds, 'ADDMASK': add, 'ABMASK': ab, **({} if probe is None else {'PROBE': probe}), **({} if rm is None else {'RM%d' % (k + 1): v for k, v in enumerate(rm)}),
+                                                                   **({} if perm is None else {'SYMCELL': 99 if sym is None else sym, 'DATAPERM': perm}),
                                                                    'VT_UMAP_CAP': USIZE[shape] + 1},
-                        stdmodel=True, unwind=USIZE[shape] + 4, timeout=to, mem_gb=20,
-                        bound='universe %s: cells %x added in order, cells %x created and abandoned, then EVERY subset removed; all int data' % (SHAPES[shape], add, ab)))
-    def comp(shape):
-        qs.append(Query('components[%s]' % SHAPES[shape], 'C13_grid.cpp', 'harness_components', defines={'KIND': 0, 'SHAPE': shape, 'VT_UMAP_CAP': USIZE[shape] + 1},
-                        stdmodel=True, unwind=USIZE[shape] * 2 + 4, timeout=to, mem_gb=20, bound='every subset of universe %s' % SHAPES[shape]))
+                        stdmodel=('um', 'vec'), unwind=(USIZE[shape] + 5) if sym is not None else (USIZE[shape] * USIZE[shape] * 4 + 6) if rm is not None else USIZE[shape] * 4 + 8, timeout=to, mem_gb=24, checks='none', new_cap=64,
+                        bound='universe %s: cells %x added in order, cells %x created and abandoned, then %s; all int data' % (SHAPES[shape], add, ab, 'EVERY subset removed' if rm is None else 'cells %s removed in that order' % (rm,))))
+    def comp(shape, masks=None):
+        for m in (masks if masks is not None else range(1 << USIZE[shape])):
+            qs.append(Query('components[%s,present=%x]' % (SHAPES[shape], m), 'C13_grid.cpp', 'harness_components',
+                            defines={'KIND': 0, 'SHAPE': shape, 'VT_UMAP_CAP': USIZE[shape] + 1, 'PRESENT': m},
+                            stdmodel=('um',), unwind=USIZE[shape] * USIZE[shape] * 2 + 10, timeout=to, mem_gb=20, checks='none',
+                            bound='subset %x of universe %s (case split; no symbolic input: CBMC executes the real code bit-precisely)' % (m, SHAPES[shape])))
+    import itertools
+    def rmseqs(shape, maxlen):
+        out = [(-1,)]
+        for L in range(1, maxlen + 1):
+            out += list(itertools.permutations(range(USIZE[shape]), L))
+        return out
+    def perms(shape, n):
+        import random
+        rnd = random.Random(13)
+        base = list(range(1, USIZE[shape] + 1))
+        out = []
+        allp = list(itertools.permutations(base))
+        rnd.shuffle(allp)
+        for pm in allp[:n]:
+            out.append(sum(v << (4 * i) for i, v in enumerate(pm)))
+        out.append(sum(2 << (4 * i) for i in range(USIZE[shape])))                    # all keys tie
+        out.append(sum((1 + (i & 1)) << (4 * i) for i in range(USIZE[shape])))        # two classes of ties
+        return out
+    # components(): NOT claimed - even with a concrete subset the query (std::sort over a vector of vectors, erase in the BFS queue)
+    # was undecided after 900 s with both the model and the real std::vector; see DESIGN.md C13.
     if tier == 'quick':
-        grid(0, 1, probe=0); grid(0, 1, probe=3); grid(1, 0); grid(1, 1, bounds=1); grid(1, 0, ab=2); grid(2, 0); grid(2, 0, ab=4); grid(2, 4, limit=1); grid(2, 1, limit=2); grid(2, 1, ab=8)
-        comp(1); comp(2)
+        grid(0, 1, probe=0); grid(0, 1, probe=3); grid(0, 0)
+        # GridN: removal sequence case-split; interior limit and grid bounds symbolic
+        for rm in rmseqs(0, 1): grid(1, 0, rm=rm, limit=99, bounds=2)
+        grid(1, 0, rm=(1, 2), limit=99, bounds=2); grid(1, 0, rm=(0, 3), limit=99, bounds=2); grid(1, 1, rm=(2,), limit=99, bounds=2)
+        for ab in (2, 8):
+            for rm in ((-1,), (0,)): grid(1, 0, ab=ab, rm=rm, limit=99, bounds=2)
+        # GridB: (i) add-only history with one fully symbolic key, (ii) key order types x removal sequences (case split)
+        grid(2, 0, rm=(-1,), sym=3, perm=0x4321)
+        for pm in perms(0, 2):
+            for rm in rmseqs(0, 1): grid(2, 0, rm=rm, perm=pm)
+            grid(2, 0, rm=(1, 2), perm=pm)
+            for ab in (2, 4): grid(2, 0, ab=ab, rm=(-1,), perm=pm); grid(2, 0, ab=ab, rm=(0,), perm=pm)
+        for pm in perms(4, 2):
+            for rm in ((-1,), (2,), (1, 3)): grid(2, 4, limit=1, rm=rm, perm=pm)
+        for pm in perms(1, 1):
+            for rm in ((-1,), (3,)): grid(2, 1, limit=2, rm=rm, perm=pm); grid(2, 1, bounds=1, rm=rm, perm=pm)
     else:
         for s in SHAPES:
-            grid(0, s); grid(1, s); grid(1, s, bounds=1); grid(2, s); grid(2, s, bounds=1)
-            for j in range(USIZE[s]):
-                grid(1, s, ab=1 << j); grid(2, s, ab=1 << j)
-            comp(s)
-        grid(2, 4, limit=1); grid(2, 1, limit=2); grid(2, 2, limit=2); grid(2, 2, limit=3); grid(1, 2, limit=3, bounds=1)
+            grid(0, s)
+        for s in SHAPES:
+            for rm in rmseqs(s, 2 if USIZE[s] <= 5 else 1):
+                grid(1, s, rm=rm, limit=99, bounds=2)
+                for j in range(USIZE[s]):
+                    if j not in rm: grid(1, s, ab=1 << j, rm=rm, limit=99, bounds=2)
+            grid(2, s, rm=(-1,), sym=USIZE[s] - 1, perm=sum((i + 1) << (4 * i) for i in range(USIZE[s])))
+            for pm in perms(s, 6):
+                for rm in rmseqs(s, 2 if USIZE[s] <= 5 else 1):
+                    grid(2, s, rm=rm, perm=pm); grid(2, s, rm=rm, perm=pm, bounds=1)
+                    for j in range(USIZE[s]):
+                        if j not in rm: grid(2, s, ab=1 << j, rm=rm, perm=pm)
+        for pm in perms(4, 6):
+            for rm in rmseqs(4, 3): grid(2, 4, limit=1, rm=rm, perm=pm)
+        for pm in perms(2, 6):
+            for rm in rmseqs(2, 2): grid(2, 2, limit=2, rm=rm, perm=pm); grid(2, 2, limit=3, rm=rm, perm=pm)
     return qs
